@@ -143,7 +143,7 @@ def noCPageItems : List (SPageItem × WGap) → WGap × List (SPageItem × WGap)
 def SPageBlock.noC (b : SPageBlock) : SPageBlock :=
   { lead := b.lead ++ (noCPageItems b.items).1, items := (noCPageItems b.items).2, last := b.last.map SDecl.noC }
 
-def SPageSel.noC (s : SPageSel) : SPageSel := { name := s.name, mid := [], pseudo := s.pseudo }
+def SPageSel.noC (s : SPageSel) : SPageSel := { name := s.name, mid := [], pseudo := s.pseudo, pseudoSp := s.pseudoSp }
 
 theorem strip_pageItems (items : List (SPageItem × WGap)) :
     strip (renderPageItems items) = WGap.toks (noCPageItems items).1 ++ renderPageItems (noCPageItems items).2 := by
